@@ -18,6 +18,8 @@ Not decided: bit-identity of floating-point results; reads of uninitialised stac
 """
 from __future__ import annotations
 
+import re
+
 from .. import callgraph, cir, ctypeinfo, engine, specialise, xmacro
 from ..cfront import AnalysisError
 
@@ -25,6 +27,118 @@ NONDET = {"rand", "random", "srand", "srandom", "drand48", "lrand48", "time", "c
           "getenv", "secure_getenv", "getpid", "gettid", "rand_r", "arc4random", "timespec_get", "localtime", "gmtime"}
 LOG_TU = "src/engine/engine_util_errmem.c"
 IO = "src/engine/engine_io.c"
+
+
+
+def arena_stale(res, g, arena_names):
+    """R-ARENA-STALE (shared with C20): what a rewind of d->parena releases is cleared with it."""
+    # ---------------------------------------------------------------- R-ARENA-STALE
+    res.rule("R-ARENA-STALE", "every arena rewind is accompanied by clearing the arena-backed pointers", floor=6)
+    from .. import r_nullable
+    clr_by_tu = engine.map_tus("sa.r_nullable", "clearers_of", engine.engine_tus())
+    clearers = set()
+    for tu, c in clr_by_tu.items():
+        for fld, names in c.items():
+            if fld in arena_names and fld != "contact":
+                clearers |= set(names)
+    # only functions that clear at least the solver block count as clearers of the constraint arena
+    if not {"mj_clearEfc"} <= clearers:
+        raise AnalysisError("mj_clearEfc not inferred as an arena clearer")
+    rewinders = {}
+    for k, f in g.funcs.items():
+        for e in f["events"]:
+            if e["struct"] == "mjData" and e["field"] == "parena" and e["kind"] == "assign" and e.get("op") == "=":
+                rewinders.setdefault(k, []).append(e["line"])
+    callers = {}
+    for k, f in g.funcs.items():
+        for c in g.callees(k, indirect=False):
+            callers.setdefault(c, set()).add(k)
+    # what a rewind goes back to decides what must be cleared with it: back to the end of the contact array (or to 0) releases
+    # every constraint array, so the efc block must be cleared; back to a saved local releases what was allocated since
+    core = ("efc_type", "efc_J", "efc_D", "efc_force")       # every one of these must be cleared by an "efc clearer"
+    per_field = {}
+    for tu, c in clr_by_tu.items():
+        for fld, names in c.items():
+            per_field.setdefault(fld, set()).update(names)
+    if not all(f_ in per_field for f_ in core):
+        raise AnalysisError(f"no function clears the constraint arrays {[f_ for f_ in core if f_ not in per_field]}")
+    efc_clearers = set.intersection(*(per_field[f_] for f_ in core))
+    if "mj_clearEfc" not in efc_clearers:
+        raise AnalysisError("mj_clearEfc not inferred as the clearer of the constraint arrays")
+
+    def rewind_kind(k):
+        u_ = engine.unit(k[0]) if k[0].endswith((".c", ".cc")) else None
+        fn_ = u_.funcs.get(k[1]) if u_ is not None else None
+        if fn_ is None:
+            for tu_ in engine.engine_tus():
+                fn_ = engine.unit(tu_).funcs.get(k[1])
+                if fn_ is not None:
+                    break
+        kinds = set()
+        for x in cir.walk(fn_) if fn_ is not None else ():
+            if x.get("k") == "BinaryOperator" and x.get("op") == "=" and re.fullmatch(r"\w+->parena", cir.text(cir.kids(x)[0])):
+                rhs = cir.text(cir.kids(x)[1])
+                if "ncon" in rhs and "mjContact" in rhs or cir.strip(cir.kids(x)[1]).get("k") == "IntegerLiteral":
+                    kinds.add("full")
+                else:
+                    kinds.add("partial")
+        return kinds or {"partial"}
+
+    # a rewind wrapped in a private helper is a rewind of each caller
+    expanded = {}
+    for k, lines in rewinders.items():
+        f = g.funcs[k]
+        kinds = rewind_kind(k)
+        helper_like = f["static"] and callers.get(k) and not (f["calls"] or [])
+        if helper_like and k[1] not in ("mj_arenaAllocByte",):
+            for c in callers[k]:
+                e = expanded.setdefault(c, {"lines": [], "kinds": set(), "via": set()})
+                e["lines"] += lines
+                e["kinds"] |= kinds
+                e["via"].add(k[1])
+        else:
+            e = expanded.setdefault(k, {"lines": [], "kinds": set(), "via": set()})
+            e["lines"] += lines
+            e["kinds"] |= kinds
+    if len(expanded) < 6:
+        raise AnalysisError(f"only {len(expanded)} arena rewinding functions found")
+
+    def clears(k, depth=0, which=None):
+        """k clears the arena-backed pointers itself, by calling a clearer, or through static helpers of its own file"""
+        which = clearers if which is None else which
+        f = g.funcs[k]
+        if k[1] in which:
+            return True
+        if any(c in which for c in f["calls"]):
+            return True
+        if depth < 3:
+            for c in g.callees(k, indirect=False):
+                cf_ = g.funcs.get(c)
+                if cf_ is not None and cf_["static"] and cf_["file"] == f["file"] and c != k and clears(c, depth + 1, which):
+                    return True
+        return False
+
+    for k, info in sorted(expanded.items()):
+        f = g.funcs[k]
+        name = k[1]
+        lines = info["lines"]
+        if name in ("mj_arenaAllocByte",):
+            continue
+        which = efc_clearers if "full" in info["kinds"] else clearers
+        what = "the constraint (efc_*) arrays" if "full" in info["kinds"] else "the arena-backed pointers"
+        if clears(k, which=which):
+            res.ok("R-ARENA-STALE", name, {"clears_in_function": True, "rewind": sorted(info["kinds"]), "via": sorted(info["via"])})
+            continue
+        cs = callers.get(k, set())
+        if f["static"] and cs and all(clears(c, which=which) or
+                                      all(clears(c2, which=which) for c2 in callers.get(c, set()) or [None] if c2) and callers.get(c)
+                                      for c in cs):
+            res.ok("R-ARENA-STALE", name, {"cleared_by_callers": sorted(c[1] for c in cs), "rewind": sorted(info["kinds"])})
+        else:
+            res.bad("R-ARENA-STALE", name, f["file"], lines[0],
+                    f"{name} rewinds d->parena ({'to the end of the contact array' if 'full' in info['kinds'] else 'to a saved value'}"
+                    f"{' through ' + ', '.join(sorted(info['via'])) if info['via'] else ''}) but neither it nor all of its callers "
+                    f"({sorted(c[1] for c in cs)[:4]}) clear {what}: stale efc/island pointers would alias recycled arena memory")
 
 
 def run(res, tier):
@@ -135,61 +249,7 @@ def run(res, tier):
             res.bad("R-COVER-COPY", f"copy:{name}", IO, fn.get("line"),
                     f"d->{name} is copied with size `{copied[name]}` but its row is {row['type']} x {row['nr']} x {row['nc']}")
 
-    # ---------------------------------------------------------------- R-ARENA-STALE
-    res.rule("R-ARENA-STALE", "every arena rewind is accompanied by clearing the arena-backed pointers", floor=6)
-    from .. import r_nullable
-    clr_by_tu = engine.map_tus("sa.r_nullable", "clearers_of", engine.engine_tus())
-    arena_names = set(aptr)
-    clearers = set()
-    for tu, c in clr_by_tu.items():
-        for fld, names in c.items():
-            if fld in arena_names and fld != "contact":
-                clearers |= set(names)
-    # only functions that clear at least the solver block count as clearers of the constraint arena
-    if not {"mj_clearEfc"} <= clearers:
-        raise AnalysisError("mj_clearEfc not inferred as an arena clearer")
-    rewinders = {}
-    for k, f in g.funcs.items():
-        for e in f["events"]:
-            if e["struct"] == "mjData" and e["field"] == "parena" and e["kind"] == "assign" and e.get("op") == "=":
-                rewinders.setdefault(k, []).append(e["line"])
-    if len(rewinders) < 6:
-        raise AnalysisError(f"only {len(rewinders)} arena rewinding functions found")
-    callers = {}
-    for k, f in g.funcs.items():
-        for c in g.callees(k, indirect=False):
-            callers.setdefault(c, set()).add(k)
-
-    def clears(k, depth=0):
-        """k clears the arena-backed pointers itself, by calling a clearer, or through static helpers of its own file"""
-        f = g.funcs[k]
-        if k[1] in clearers:
-            return True
-        if any(c in clearers for c in f["calls"]):
-            return True
-        if depth < 3:
-            for c in g.callees(k, indirect=False):
-                cf_ = g.funcs.get(c)
-                if cf_ is not None and cf_["static"] and cf_["file"] == f["file"] and c != k and clears(c, depth + 1):
-                    return True
-        return False
-
-    for k, lines in sorted(rewinders.items()):
-        f = g.funcs[k]
-        name = k[1]
-        if name in ("mj_arenaAllocByte",):
-            continue
-        if clears(k):
-            res.ok("R-ARENA-STALE", name, {"clears_in_function": True})
-            continue
-        cs = callers.get(k, set())
-        if f["static"] and cs and all(clears(c) or all(clears(c2) for c2 in callers.get(c, set()) or [None] if c2) and callers.get(c)
-                                      for c in cs):
-            res.ok("R-ARENA-STALE", name, {"cleared_by_callers": sorted(c[1] for c in cs)})
-        else:
-            res.bad("R-ARENA-STALE", name, f["file"], lines[0],
-                    f"{name} rewinds d->parena but neither it nor all of its callers ({sorted(c[1] for c in cs)[:4]}) clear the "
-                    f"arena-backed pointers: stale efc/island pointers would alias recycled arena memory")
+    arena_stale(res, g, set(aptr))
     # ---------------------------------------------------------------- R-ITERATE-INIT
     # The solvers start from (qacc, efc_force).  The function that prepares that starting point (it reads qacc_warmstart and is
     # called by the constraint stage before the solver dispatch) must define both on every path: efc_force lives in the arena,
